@@ -68,6 +68,8 @@ def _task(args):
             core.run_enum(pid, part, shard, nshards, stats, known, found)
         elif part.kind == "machine":
             core.run_machine(pid, part, n, steps, seed_value, stats, known, found)
+        elif part.kind == "custom":
+            part.run(pid, part, n, seed_value, stats, known, found)
         else:
             raise core.HarnessError(f"unknown part kind {part.kind}")
     except core.HarnessError as exc:
@@ -160,6 +162,8 @@ def main(argv=None):
         else:
             # more, smaller shards than processes: evens out the very unequal cost of generated trajectory cases
             k = max(1, min(nshards * int(os.environ.get("VERIF_OVERSHARD", "4")), n_total // 25 or 1))
+            if p.max_shards:
+                k = min(k, p.max_shards)
             per = max(1, int(math.ceil(n_total / k)))
             for s in range(k):
                 tasks.append((pid, p.name, s, k, per, p.steps.get(tier), derive_seed(seed, pid, p.name, s), tier,
